@@ -10,7 +10,8 @@ import pipe_impl
 
 META = {
     'theorem_files': ['Props/C07.v'],
-    'theorems': [],
+    'theorems': ['C07_reader_steps_total', 'C07_walker_total', 'C07_validation_total', 'C07_driver_total', 'C07_shipped_environment_ok',
+                 'C07_shipped_total', 'C07_letter_terminator_raises', 'C07_pipeline_off_is_driver'],
     'trusted_base': [
         'Coq 8.16.1 kernel; no native_compute',
         'Model/Pipeline.v (+ Driver, Walker, Element, Errh, Html, XmlOut, Ack997/999, Reader, Raw): hand transcription of '
@@ -18,7 +19,8 @@ META = {
         'implementation text',
         'extraction (ExtrOcamlBasic only) + ocaml/driver.ml',
     ],
-    'assumptions': [],
+    'assumptions': ['theorem: sinks off; header terminator / element separator not among the letters I S A (recorded finding otherwise); '
+                    'maps 277.5010.X212, 820.4010.X061.A1, 830.4010.PS, 841.4010.XXXC are outside the proved environment'],
 }
 
 ALLOWED = ('X12Error', 'EngineError')
@@ -37,7 +39,8 @@ def allowed(info):
 
 
 def arbitrary_texts(rng, n):
-    out = []
+    out = [('arbitrary', 'letter-terminator',
+            'ISA*00*          *00*          *ZZ*SENDER         *ZZ*RECEIVER       *030101*1253*U*00401*000000001*0*P*:SIEA*1*000000001S')]
     alph = 'ISA*~:GSTE01 \n\r|^>AB<&'
     I = docgen.isa('000000001', ('~', '*', ':'))
     for k in range(n):
